@@ -367,7 +367,9 @@ pub fn run(verif: &Path, repo: &Path, exe: &Path, seed: u64, sessions: usize, w:
     let pool: Vec<Program> = w
         .programs
         .iter()
-        .filter(|p| syn::parse_str::<syn::Item>(&p.item).is_ok() && !p.attr.contains("debug"))
+        // rustc evaluates `cfg` / `cfg_attr` before the attribute macro sees the item,
+        // so such programs are not the same input in the two worlds
+        .filter(|p| syn::parse_str::<syn::Item>(&p.item).is_ok() && !p.attr.contains("debug") && !p.item.contains("cfg"))
         .cloned()
         .collect();
     if pool.len() < 10 {
